@@ -47,6 +47,7 @@ type verifCmd struct {
 	FailWrite  int      `json:"fail_write,omitempty"` // pump: the output fails from this Write call on (0 = never)
 	URLs       int      `json:"urls,omitempty"`       // pump: number of distinct URL label values (default 4)
 	SignalAt   int      `json:"signal_at,omitempty"`  // pump: one interrupt is delivered after this many results were handed over (0 = none)
+	Feeders    int      `json:"feeders,omitempty"`    // pump: goroutines handing results over concurrently, as the workers of an attack do (default 1)
 }
 
 type verifDial struct {
@@ -73,6 +74,9 @@ type verifAns struct {
 	ObservedOut   float64 `json:"observed_bytes_out,omitempty"`
 	ObservedFail  float64 `json:"observed_fail,omitempty"`
 	Taken         int     `json:"taken,omitempty"` // pump: results the pump took from the channel
+	// pump: the largest number of results that had been handed over but not yet passed to the encoder
+	// when the encoder was called (0 when every result is encoded before the next one is taken)
+	MaxLag int `json:"max_lag"`
 }
 
 // verifFailingWriter fails every Write call from the n-th on (n = 0: never).
@@ -199,30 +203,61 @@ func verifRun(c verifCmd) (a verifAns) {
 		var taken atomic.Int64
 		quit := make(chan struct{})
 		feederDone := make(chan struct{})
-		go func() {
-			defer close(feederDone)
-			base := time.Unix(1700000000, 0)
-			for i := 0; i < c.Results; i++ {
-				r := &vegeta.Result{Attack: "pump", Seq: uint64(i), Code: 200, Timestamp: base.Add(time.Duration(i) * time.Microsecond),
-					Latency: time.Duration(1+i%7) * time.Millisecond, BytesIn: uint64(10 + i%5), BytesOut: uint64(i % 3), Method: "GET", URL: fmt.Sprintf("http://pump/%d", i%urls)}
-				if c.ErrEvery > 0 && i%c.ErrEvery == 0 {
-					r.Code, r.Error = 500, "500 Internal Server Error"
-				}
-				select {
-				case res <- r:
-					taken.Add(1)
-					if c.SignalAt > 0 && i+1 == c.SignalAt {
-						sig <- os.Interrupt // the first Ctrl-C: stop attacking, keep collecting what is in flight
+		feeders := c.Feeders
+		if feeders < 1 {
+			feeders = 1
+		}
+		var next atomic.Int64
+		var fwg sync.WaitGroup
+		base := time.Unix(1700000000, 0)
+		for f := 0; f < feeders; f++ {
+			fwg.Add(1)
+			go func() {
+				defer fwg.Done()
+				for {
+					i := int(next.Add(1)) - 1
+					if i >= c.Results {
+						return
 					}
-				case <-quit: // the pump gave up (write error)
-					return
+					r := &vegeta.Result{Attack: "pump", Seq: uint64(i), Code: 200, Timestamp: base.Add(time.Duration(i) * time.Microsecond),
+						Latency: time.Duration(1+i%7) * time.Millisecond, BytesIn: uint64(10 + i%5), BytesOut: uint64(i % 3), Method: "GET", URL: fmt.Sprintf("http://pump/%d", i%urls)}
+					if c.ErrEvery > 0 && i%c.ErrEvery == 0 {
+						r.Code, r.Error = 500, "500 Internal Server Error"
+					}
+					select {
+					case res <- r:
+						if n := taken.Add(1); c.SignalAt > 0 && int(n) == c.SignalAt {
+							sig <- os.Interrupt // the first Ctrl-C: stop attacking, keep collecting what is in flight
+						}
+					case <-quit: // the pump gave up (write error)
+						return
+					}
 				}
+			}()
+		}
+		go func() {
+			fwg.Wait()
+			select {
+			case <-quit:
+			default:
+				close(res)
 			}
-			close(res)
+			close(feederDone)
 		}()
-		if err := processAttack(atk, res, enc, sig, pm); err != nil {
+		// the encoder the pump is given counts how far the hand-overs are ahead of it: when it is
+		// called for the k-th time the pump has taken k results, no more
+		var encoded, maxLag int64
+		observingEnc := vegeta.Encoder(func(r *vegeta.Result) error {
+			encoded++
+			if lag := taken.Load() - encoded; lag > maxLag {
+				maxLag = lag
+			}
+			return enc(r)
+		})
+		if err := processAttack(atk, res, observingEnc, sig, pm); err != nil {
 			a.Err = err.Error()
 		}
+		a.MaxLag = int(maxLag)
 		// a completed hand-over is counted before the feeder looks at quit again, so after
 		// the feeder has ended the count of results the pump took is exact
 		close(quit)
